@@ -94,6 +94,39 @@ def run(ctx):
                     if st is not None and r.returncode != st: viol.append(dict(why='exit status %d, grep on the decompressed data gives %d: xzgrep %s -e %r -- %r' % (r.returncode, st, opts, pat, files)))
                 if r.stdout != exp and not bad_file:   # with a missing/undecodable file only the status is specified
                     viol.append(dict(why='output differs from grep on the decompressed data with the given labels: xzgrep %s -e %r -- %r (sed fallback: %s)\n got %r\n exp %r' % (opts, pat, files, bool(grepvar), r.stdout[:300], exp[:300])))
+        # every way of handing over a pattern (-e PAT, -ePAT, --regexp=PAT, --regexp PAT, first operand), one or two of them,
+        # with hostile texts: a quote as the last / first / only character, quote + shell syntax, new lines; the text is data
+        hp = [b"x'", b"'", b"a'b", b"'lead", b";touch CANARY;'", b"';touch CANARY;'", b"needle';touch CANARY;echo '", b"$(touch CANARY)", b"`touch CANARY`",
+              b"lineX\n'second", b"o'ne\nX", b"needle", b"Hello'", b"-v", b"\\'", b"needle' --version '"]
+        def forms(pt):
+            return [[b'-e', pt], [b'-e' + pt], [b'--regexp=' + pt], [b'--regexp', pt], [b'-ie' + pt], [b'--regex=' + pt]]
+        for it in range(80 if ctx.quick() else 2000):
+            pts = [rng.choice(hp) for _k in range(rng.choice([1, 2, 2]))]
+            if it < len(hp): pts = [hp[it]] + ([b";touch CANARY;'"] if it % 2 else [])
+            args = []
+            ci = False
+            for pt in pts:
+                f_ = rng.choice(forms(pt)); args += f_
+                if f_[0].startswith(b'-ie'): ci = True
+            positional = len(pts) == 1 and rng.random() < 0.2 and not pts[0].startswith(b'-')
+            if positional: args = [pts[0]]; ci = False
+            fl_ = [g] if rng.random() < 0.6 else [g, rng.choice(names)]
+            for grepvar in (None, wrap):
+                e2 = dict(env)
+                if grepvar: e2['GREP'] = grepvar
+                r = subprocess.run([os.path.join(bdir.encode(), b'xzgrep')] + args + [b'--'] + fl_, cwd=d, capture_output=True, env=e2, stdin=subprocess.DEVNULL, timeout=60)
+                n_eval += 1; distinct.add(('patform', tuple(args), len(fl_), bool(grepvar), r.returncode))
+                if os.path.exists(os.path.join(d, 'CANARY')):
+                    viol.append(dict(why='text given as a pattern was executed as a command (CANARY created): xzgrep %r -- %r' % (args, fl_))); os.remove(os.path.join(d, 'CANARY')); continue
+                ropts = ([b'-i'] if ci else []) + [x for pt in pts for x in (b'-e', pt)] + ([b'-H'] if len(fl_) > 1 else [])
+                exp = b''; st = 1
+                for f in fl_:
+                    rr = subprocess.run([b'grep'] + ropts + [b'--label=' + f, b'-'], input=contents[f], capture_output=True, env=env)
+                    exp += rr.stdout
+                    if rr.returncode >= 2: st = max(st, rr.returncode)
+                    elif rr.returncode == 0 and st == 1: st = 0
+                if r.returncode != st or r.stdout != exp:
+                    viol.append(dict(why='patterns %r handed over as %r: exit status %d / output %r, grep on the decompressed data gives %d / %r (sed fallback: %s)' % (pts, args, r.returncode, r.stdout[:200], st, exp[:200], bool(grepvar))))
         # xzdiff / xzcmp
         pairs = [(g, g, 0), (g, names[0], None), (g, b'missing-file', 2), (b'bad.xz', g, 2)]
         for a, b, want in pairs:
